@@ -413,6 +413,34 @@ case("TryUnwrap_generic", ["TryUnwrap"], D("TryUnwrap") + " #[try_unwrap(ref)] p
 case("TryUnwrap_single", ["TryUnwrap"], D("TryUnwrap") + " pub enum M { A(i32) }", "M::A(3).try_unwrap_a().ok()")
 
 
+# ------------------------------------------------------------------ Error::provide (nightly: error_generic_member_access)
+NIGHTLY_CASES = []
+
+
+def ncase(cid, src, obs):
+    NIGHTLY_CASES.append({"id": cid, "derives": ["Error"], "src": src.strip("\n"), "obs": obs.strip(), "tier": "thorough"})
+
+
+BT = "::std::backtrace::Backtrace"
+REQ = "::core::error::request_ref::<%s>" % BT
+ncase("Error_bt_named", ERRD + " #[display(\"e\")] pub struct E { pub backtrace: %s }" % BT,
+      "%s(&E { backtrace: %s::force_capture() }).is_some()" % (REQ, BT))
+ncase("Error_bt_tuple", ERRD + " pub struct E1; " + ERRD + " #[display(\"e\")] pub struct E(pub E1, pub %s);" % BT,
+      "{ let e = E(E1, %s::force_capture()); (%s(&e).is_some(), %s(&e).is_some()) }" % (BT, REQ, SRC))
+ncase("Error_bt_source_named", ERRD + " pub struct E1; " + ERRD + " #[display(\"e\")] pub struct E { pub source: E1, pub backtrace: %s }" % BT,
+      "{ let e = E { source: E1, backtrace: %s::force_capture() }; (%s(&e).is_some(), %s(&e).is_some()) }" % (BT, REQ, SRC))
+ncase("Error_bt_is_source", ERRD + " #[display(\"i\")] pub struct I { pub backtrace: %s } " % BT + ERRD +
+      " #[display(\"e\")] pub struct E { #[error(backtrace)] pub source: I }",
+      "{ let e = E { source: I { backtrace: %s::force_capture() } }; (%s(&e).is_some(), %s(&e).is_some()) }" % (BT, REQ, SRC))
+ncase("Error_bt_explicit", ERRD + " #[display(\"e\")] pub struct E { #[error(backtrace)] pub bt: %s, pub x: i32 }" % BT,
+      "%s(&E { bt: %s::force_capture(), x: 1 }).is_some()" % (REQ, BT))
+ncase("Error_bt_enum", ERRD + " #[display(\"i\")] pub struct I { pub backtrace: %s } " % BT + ERRD + " pub struct E1; " + ERRD +
+      " pub enum E { #[display(\"a\")] A { backtrace: %s }, #[display(\"b\")] B { source: E1, backtrace: %s }, "
+      "#[display(\"c\")] C { #[error(backtrace)] source: I }, #[display(\"d\")] D(E1, %s), F }" % (BT, BT, BT),
+      "(%s(&E::A { backtrace: %s::force_capture() }).is_some(), %s(&E::B { source: E1, backtrace: %s::force_capture() }).is_some(), "
+      "%s(&E::C { source: I { backtrace: %s::force_capture() } }).is_some(), %s(&E::D(E1, %s::force_capture())).is_some(), %s(&E::F).is_some())"
+      % (REQ, BT, REQ, BT, REQ, BT, REQ, BT, REQ))
+
 # ------------------------------------------------------------------ scopes
 
 HOSTILE_TYPES = ["Result", "Option", "String", "Vec", "Box", "Formatter", "Arguments"]
@@ -483,9 +511,9 @@ def mod_decl(c, scope):
         attr, scope, c["id"])
 
 
-def main_rs(active):
+def main_rs(active, crate_attrs=""):
     """active: list of (case, scope)"""
-    lines = ["#![allow(clippy::all)]", HELPERS]
+    lines = [crate_attrs, "#![allow(clippy::all)]", HELPERS]
     for c, s in active:
         lines.append(mod_decl(c, s))
     lines.append("fn main() {")
